@@ -401,7 +401,10 @@ def _run_case(case, rep, env, hbar):
             d = np.max(np.abs(gotm - ref))
             # the backend projects on a truncated infinitely squeezed state; budget from the reference tail and edge population
             from ..simobs import edge_population
-            tol = 20 * np.sqrt(tau + edge_population(pre, [mode], 2)) + 1e-6
+            # normalising the projected state divides its (truncation) error by the Born density at the outcome: outcomes in
+            # the tail of the distribution amplify it (0.4 = peak density of a vacuum-width Gaussian at hbar = 2)
+            amp = max(1.0, 0.4 / max(float(np.real(p)), 1e-12))
+            tol = amp * 20 * np.sqrt(tau + edge_population(pre, [mode], 2)) + 1e-6
             rep.dev("fock.homodyne-conditional/budget", d / tol, 1.0)
             if d > tol:
                 V("fock.measure_homodyne", "conditional-state" + (":select" if sel is not None else ""),
